@@ -33,7 +33,8 @@ def gen_cmd(rng, marker=None):
         # multi-line command: printf '%s\n' w1 w2 ...   (arguments joined by one space)
         lines = [pre + "printf '%s\\n'"] + ["'%s'" % w for w in ws]
         return lines, 0, b"".join(w.encode() + b"\n" for w in ws)
-    body = rng.choice([b"one", b"one\n", b"l1\nl2", b"l1\nl2\n", b"\n", b"", b"a\r\nb\r\n", b"x\n\ny\n", b"  ind\n", b"t  \n", b"a\rb\n"])
+    body = rng.choice([b"one", b"one\n", b"l1\nl2", b"l1\nl2\n", b"\n", b"", b"a\r\nb\r\n", b"x\n\ny\n", b"  ind\n", b"t  \n", b"a\rb\n",
+                       b"m1\r\nm2\nm3\r\n", b"n1\nn2\r\nn3"])       # mixed endings inside ONE output
     return [pre + esc_printf(body)], 0, body
 
 class SrcGen:
@@ -187,7 +188,8 @@ def gen_project(rng, pid, nsrc=None, modes=(0,), allow_errors=True, edges="dag",
     for i in range(1 + r.below(3)):
         d = r.choice(dirs)
         name = d + "inc%d.txt" % i
-        body = r.choice([b"inc line\n", b"no newline", b"two\nlines\n", b"crlf\r\nlines\r\n", b"", b"\n", b"  indented\n\nafter blank\n", "é unicode\n".encode()])
+        body = r.choice([b"inc line\n", b"no newline", b"two\nlines\n", b"crlf\r\nlines\r\n", b"", b"\n", b"  indented\n\nafter blank\n", "é unicode\n".encode(),
+                         b"mixed\r\nendings\nin one\r\nfile\n"])
         plains.append(name); p.files.append((name, body))
     # dependency edges
     deps = {s: [] for s in srcs}
